@@ -20,6 +20,7 @@ const char *harness_name = "c17_endpoints";
  * ENOMEM), small and large magnitudes, values whose low bits look like counts */
 static const int hard_codes[] = { -EIO, -EPIPE, -ETIMEDOUT, -EBADF, -EPERM, -ECONNRESET, -4095, -65541, -0x7fffff00, -256, -EILSEQ };
 #define NHARD (sizeof hard_codes / sizeof hard_codes[0])
+static int force_hard_code; /* != 0: the hard error every driver script reports (the 'codes' unit) */
 
 enum { A_ONE, A_ZERO, A_EINTR, A_EAGAIN, A_HARD, A_TWO, A_K, A_ALL, NACT };
 static const char actch[] = "10iaH2kA";
@@ -209,7 +210,7 @@ exact_get(int chunk, uint64_t code, size_t slen, size_t N)
 {
     struct drv d;
     drv_init(&d, 0, chunk, code, slen, 1000);
-    d.hard_code = hard_codes[(code + N) % NHARD];
+    d.hard_code = force_hard_code ? force_hard_code : hard_codes[(code + N) % NHARD];
     d.bound = (unsigned)(8 * N + slen + 8);
     unsigned char *dst = vh_arena(N);
     d.base = chunk ? dst : NULL; /* octet drivers get a pointer per octet: checked through content */
@@ -254,7 +255,7 @@ exact_put(int chunk, uint64_t code, size_t slen, size_t N)
 {
     struct drv d;
     drv_init(&d, 1, chunk, code, slen, 1000);
-    d.hard_code = hard_codes[(code + N + 3) % NHARD];
+    d.hard_code = force_hard_code ? force_hard_code : hard_codes[(code + N + 3) % NHARD];
     d.bound = (unsigned)(8 * N + slen + 8);
     unsigned char *src = vh_arena(N);
     for (size_t i = 0; i < N; i++)
@@ -297,7 +298,7 @@ atmost(int is_sink, int chunk, uint64_t code, size_t slen, size_t N)
 {
     struct drv d;
     drv_init(&d, is_sink, chunk, code, slen, 1000);
-    d.hard_code = hard_codes[(code + N + 5) % NHARD];
+    d.hard_code = force_hard_code ? force_hard_code : hard_codes[(code + N + 5) % NHARD];
     d.bound = (unsigned)(8 * N + slen + 8);
     unsigned char *mem = vh_arena(N);
     for (size_t i = 0; i < N; i++)
@@ -429,6 +430,50 @@ u_invalid(uint64_t idx, void *arg)
         vh_sig(0x17200000ull + i);
     }
     vh_sample("invalid", "source_get_chunk(N=0) and N=SSIZE_MAX+1 must return -EINVAL without a driver call");
+}
+
+/* ---- every error code a driver may report: whatever is not EINTR or EAGAIN is final and comes back unchanged -
+ * at the first call and after one octet was moved, through the exact and the at-most calls, both driver styles ---- */
+static void
+u_codes(uint64_t idx, void *arg)
+{
+    (void)arg;
+    const int chunk = (int)(idx & 1);
+    const unsigned base = chunk ? 8u : 5u;
+    uint64_t n = 0;
+    for (size_t slen = 1; slen <= 2; slen++) {
+        uint64_t total = slen == 1 ? base : base * base, want = UINT64_MAX;
+        for (uint64_t code = 0; code < total; code++) {
+            struct drv d;
+            drv_init(&d, 0, chunk, code, slen, 10);
+            if (strcmp(drv_str(&d), slen == 1 ? "H" : "1H") == 0)
+                want = code;
+        }
+        if (want == UINT64_MAX) {
+            vh_broken("no script '%s' for %s drivers", slen == 1 ? "H" : "1H", chunk ? "chunk" : "octet");
+            return;
+        }
+        for (int e = 1; e <= 140; e++) {
+            if (e == EINTR || e == EAGAIN)
+                continue;
+            force_hard_code = -e;
+            vh_arena_reset();
+            VH_CASE4(chunk, slen, e, 3);
+            vh_case_tag("get");
+            exact_get(chunk, want, slen, 3);
+            vh_case_tag("put");
+            exact_put(chunk, want, slen, 3);
+            vh_case_tag("atmost-get");
+            atmost(0, chunk, want, slen, 3);
+            vh_case_tag("atmost-put");
+            atmost(1, chunk, want, slen, 3);
+            n += 4;
+        }
+        force_hard_code = 0;
+    }
+    *vh_ncases += n;
+    VH_COUNT("every errno value 1..140 as a driver's hard error");
+    vh_sig(0x17b00000ull ^ idx);
 }
 
 /* ---- nothing asked for, nowhere to put it: at-most transfers of zero octets and auxiliary buffers without free
@@ -1513,6 +1558,9 @@ harness_run(void)
     vh_unit("invalid", 0, u_invalid, NULL);
     for (uint64_t i = 0; i < 4; i++)
         vh_unit("nothing", i, u_nothing, NULL);
+    for (uint64_t i = 0; i < 2; i++)
+        vh_unit("codes", i, u_codes, NULL);
+    vh_require("every errno value 1..140 as a driver's hard error");
     vh_require("nothing to move: at-most zero / auxiliary buffer without free space");
     for (uint64_t i = 0; i < NFUN * 8; i++)
         vh_unit("plumb", i, u_plumb, NULL);
